@@ -44,6 +44,7 @@ type FuncSpec struct {
 	Kind       string // func | functype | iface
 	ParamNames []string
 	Requires   []Clause
+	FnInvs     []Clause // function-level invariants: required at entry, ensured at exit, no old(); used by iterator callers
 	Ensures    []Clause
 	OnPanic    []Clause // ensures on panic exit
 	Modifies   []Expr
@@ -97,6 +98,20 @@ type PoolInv struct {
 	Src          string
 }
 
+// FoldDecl: a fold ghost over append-only byte buffers (DESIGN 2.5 (3)): a pair-of-ints automaton state.
+type FoldDecl struct {
+	Name         string
+	InitK, InitD string // integer literals
+	StepK, StepD string // pure functions (k int, d int, c int) int
+	Pkg          string
+}
+
+// RunLemma: if Q(k, d) and every byte of the run satisfies P then the run leaves (k, d) unchanged. The one-step
+// obligation is proved by SMT; the extension to runs of any length is the engine's induction schema (trusted).
+type RunLemma struct {
+	Fold, Name, Q, P string
+}
+
 type ChanRole struct {
 	Field string              // T.f
 	Ops   map[string][]string // send/recv/close -> function names
@@ -127,6 +142,9 @@ type SpecSet struct {
 	Pools   []PoolInv
 	LockInvs []LockInv
 	ChanRoles []ChanRole
+	Folds     []FoldDecl
+	RunLemmas []RunLemma
+	FoldLinks [][2]string
 	SyncCalls []SyncCall
 	Consts  map[string]string // const-global name -> mode
 	Errors  []string
@@ -282,7 +300,7 @@ func (ss *SpecSet) LoadSpecFile(path, pkgPath string, assumed bool) error {
 				cur.OnPanic = append(cur.OnPanic, c)
 			case "invariant":
 				if curLoop == nil {
-					fail(i, "invariant outside loop")
+					cur.FnInvs = append(cur.FnInvs, c)
 					continue
 				}
 				curLoop.Invs = append(curLoop.Invs, c)
@@ -512,6 +530,33 @@ func (ss *SpecSet) LoadSpecFile(path, pkgPath string, assumed bool) error {
 				g.Mode = "guarded"
 			}
 			ss.Guards = append(ss.Guards, g)
+		case "fold":
+			// fold name initK initD stepK stepD
+			parts := strings.Fields(rest)
+			if len(parts) != 5 {
+				fail(i, "fold name initK initD stepK stepD")
+				continue
+			}
+			ss.Folds = append(ss.Folds, FoldDecl{Name: parts[0], InitK: parts[1], InitD: parts[2], StepK: parts[3], StepD: parts[4], Pkg: pkgPath})
+			for _, sfx := range []string{"K", "D"} {
+				ss.UFs[parts[0]+sfx] = &UFDecl{Name: parts[0] + sfx, Params: []string{"[]byte"}, Ret: "int"}
+				ss.UFs[parts[0]+"_run"+sfx+"_str"] = &UFDecl{Name: parts[0] + "_run" + sfx + "_str", Params: []string{"int", "int", "string"}, Ret: "int"}
+				ss.UFs[parts[0]+"_run"+sfx+"_sl"] = &UFDecl{Name: parts[0] + "_run" + sfx + "_sl", Params: []string{"int", "int", "[]byte"}, Ret: "int"}
+			}
+		case "runlemma":
+			parts := strings.Fields(rest)
+			if len(parts) != 4 {
+				fail(i, "runlemma fold name Q P")
+				continue
+			}
+			ss.RunLemmas = append(ss.RunLemmas, RunLemma{Fold: parts[0], Name: parts[1], Q: parts[2], P: parts[3]})
+		case "foldlink":
+			parts := strings.Fields(rest)
+			if len(parts) != 2 {
+				fail(i, "foldlink fragFold lineFold")
+				continue
+			}
+			ss.FoldLinks = append(ss.FoldLinks, [2]string{parts[0], parts[1]})
 		case "chanrole":
 			// chanrole T.f send:F,G recv:H close:-
 			parts := strings.Fields(rest)
@@ -604,4 +649,27 @@ func matchParen(s string, open int) int {
 		}
 	}
 	return -1
+}
+
+func (f *FuncSpec) allRequires() []Clause {
+	if len(f.FnInvs) == 0 {
+		return f.Requires
+	}
+	return append(append([]Clause{}, f.Requires...), f.FnInvs...)
+}
+
+func (f *FuncSpec) allEnsures() []Clause {
+	if len(f.FnInvs) == 0 {
+		return f.Ensures
+	}
+	out := append([]Clause{}, f.Ensures...)
+	for _, c := range f.FnInvs {
+		if c.Label == "" {
+			c.Label = "inv"
+		} else {
+			c.Label = "inv." + c.Label
+		}
+		out = append(out, c)
+	}
+	return out
 }
